@@ -142,6 +142,27 @@ pub fn history_json(scanner: &str, timeout_ns: Option<u64>, path: &dyn Fn() -> V
     json!({"kind":"history","scanner":scanner,"timeout_ns":timeout_ns,"events":path(),"expected":expected,"got":got})
 }
 
+/// Sets the calling thread's mock clock (std builds: the library's clock hook; a no_std build
+/// has no clock to drive). The two clock-free scanners must not care what it says.
+#[inline]
+pub fn set_clock(_now: u64) {
+    #[cfg(feature = "std")]
+    helgoboss_midi::verif_hooks::set_mock_time(_now);
+}
+
+/// clock steps used to show that the clock-free scanners do not depend on time: 1 ns, around
+/// 1 s, just past 2^32 ns / 1 h / 2^32 us / 2^32 ms, 400 days
+pub const TIME_SHIFTS: [u64; 8] = [
+    1,
+    999_999_999,
+    1_000_000_001,
+    (1u64 << 32) + 1,
+    3_600_000_000_001,
+    (1u64 << 32) * 1_000 + 1,
+    (1u64 << 32) * 1_000_000 + 1,
+    400 * 86_400_000_000_000,
+];
+
 // =====================================================================================
 // 14-bit Control Change scanner monitor
 // =====================================================================================
@@ -151,13 +172,19 @@ pub struct Cc14Mon {
     pub real: ControlChange14BitMessageScanner,
     /// per channel: most recent CC with controller number < 32 since creation/reset
     pub last_msb: [Option<(u8, u8)>; 16],
+    /// mock clock (advanced by Tick events; the scanner must not care)
+    pub now: u64,
+    rot: u8,
 }
 
 impl Cc14Mon {
     pub fn new() -> Self {
+        set_clock(0);
         Cc14Mon {
             real: ControlChange14BitMessageScanner::new(),
             last_msb: [None; 16],
+            now: 0,
+            rot: 0,
         }
     }
 
@@ -185,6 +212,7 @@ impl Cc14Mon {
                 let before = self.real;
                 let exp = self.expected(ev);
                 let real = &mut self.real;
+                set_clock(self.now);
                 let got = api("ControlChange14BitMessageScanner::feed", || real.feed(&m));
                 let Some(got) = got else {
                     crate::viol!(rep, 
@@ -215,6 +243,26 @@ impl Cc14Mon {
                             "C08:result-depends-on-message-representation",
                             format!("feed({}) returned {:?} for RawShortMessage, {:?} for StructuredShortMessage, {:?} for a foreign implementor (states equal: {} / {})", ev.render(), gotp, g2.map(|x| x.as_ref().map(c14m)), g3.map(|x| x.as_ref().map(c14m)), twin == self.real, twin3 == self.real),
                             history_json("cc14", None, path, json!(format!("{:?}", gotp)), json!("differs by carrier"))
+                        );
+                    }
+                }
+                // time twin: the same message fed to a copy of the prior state at a later instant
+                // (a clock-free scanner reports the same whatever the clock says)
+                #[cfg(feature = "std")]
+                {
+                    self.rot = self.rot.wrapping_add(1);
+                    let delta = TIME_SHIFTS[(self.rot % 8) as usize];
+                    let mut twin = before;
+                    set_clock(self.now.saturating_add(delta));
+                    let g = api("ControlChange14BitMessageScanner::feed", || twin.feed(&m));
+                    set_clock(self.now);
+                    rep.count("cc14_time_shifted_feeds", 1);
+                    if g != Some(got) {
+                        crate::viol!(
+                            rep,
+                            "C08:feed-result-depends-on-time",
+                            format!("feed({}) returned {:?} at t={} ns but {:?} when the same scanner state was fed {} ns later", ev.render(), gotp, self.now, g.map(|x| x.as_ref().map(c14m)), delta),
+                            history_json("cc14", None, path, json!(format!("{:?}", gotp)), json!(format!("{} ns later: {:?}", delta, g.map(|x| x.as_ref().map(c14m)))))
                         );
                     }
                 }
@@ -267,8 +315,15 @@ impl Cc14Mon {
                 }
                 gotp
             }
+            Ev::Tick(n) | Ev::TickPoll(n, _) => {
+                self.now = self.now.saturating_add(*n);
+                set_clock(self.now);
+                rep.count("cc14_clock_steps", 1);
+                None
+            }
             Ev::Reset => {
                 let real = &mut self.real;
+                set_clock(self.now);
                 let r = api("ControlChange14BitMessageScanner::reset", || real.reset());
                 self.last_msb = [None; 16];
                 rep.count("cc14_resets", 1);
@@ -311,13 +366,19 @@ impl PnHist {
 pub struct PnMon {
     pub real: ParameterNumberMessageScanner,
     pub h: [PnHist; 16],
+    /// mock clock (advanced by Tick events; the scanner must not care)
+    pub now: u64,
+    rot: u8,
 }
 
 impl PnMon {
     pub fn new() -> Self {
+        set_clock(0);
         PnMon {
             real: ParameterNumberMessageScanner::new(),
             h: [PnHist::default(); 16],
+            now: 0,
+            rot: 0,
         }
     }
 
@@ -383,6 +444,7 @@ impl PnMon {
                 let before = self.real;
                 let exp = self.expected(ev);
                 let real = &mut self.real;
+                set_clock(self.now);
                 let got = api("ParameterNumberMessageScanner::feed", || real.feed(&m));
                 let Some(got) = got else {
                     crate::viol!(rep, 
@@ -411,6 +473,25 @@ impl PnMon {
                             "C11:result-depends-on-message-representation",
                             format!("feed({}) returned {:?} for RawShortMessage, {:?} for StructuredShortMessage, {:?} for a foreign implementor (states equal: {} / {})", ev.render(), gotp, g2.map(|x| x.as_ref().map(pnm)), g3.map(|x| x.as_ref().map(pnm)), twin == self.real, twin3 == self.real),
                             history_json("pn", None, path, json!(format!("{:?}", gotp)), json!("differs by carrier"))
+                        );
+                    }
+                }
+                // time twin: the same message fed to a copy of the prior state at a later instant
+                #[cfg(feature = "std")]
+                {
+                    self.rot = self.rot.wrapping_add(1);
+                    let delta = TIME_SHIFTS[(self.rot % 8) as usize];
+                    let mut twin = before;
+                    set_clock(self.now.saturating_add(delta));
+                    let g = api("ParameterNumberMessageScanner::feed", || twin.feed(&m));
+                    set_clock(self.now);
+                    rep.count("pn_time_shifted_feeds", 1);
+                    if g != Some(got) {
+                        crate::viol!(
+                            rep,
+                            "C11:feed-result-depends-on-time",
+                            format!("feed({}) returned {:?} at t={} ns but {:?} when the same scanner state was fed {} ns later", ev.render(), gotp, self.now, g.map(|x| x.as_ref().map(pnm)), delta),
+                            history_json("pn", None, path, json!(format!("{:?}", gotp)), json!(format!("{} ns later: {:?}", delta, g.map(|x| x.as_ref().map(pnm)))))
                         );
                     }
                 }
@@ -480,8 +561,15 @@ impl PnMon {
                 self.update(ev);
                 gotp
             }
+            Ev::Tick(n) | Ev::TickPoll(n, _) => {
+                self.now = self.now.saturating_add(*n);
+                set_clock(self.now);
+                rep.count("pn_clock_steps", 1);
+                None
+            }
             Ev::Reset => {
                 let real = &mut self.real;
+                set_clock(self.now);
                 let r = api("ParameterNumberMessageScanner::reset", || real.reset());
                 self.h = [PnHist::default(); 16];
                 rep.count("pn_resets", 1);
